@@ -344,6 +344,24 @@ def _seen_init(ck: Check, rule: str, fm: FuncModel, loop, seen: str | None) -> N
             probs.append(f"line {c.lineno}: `{text(c)[:50]}` puts nodes into the seen set that this run never visited")
         if isinstance(c, ast.AugAssign) and text(c.target) == seen and fm.cfgn(c).id not in fm.cfg.loop_nodes[top]:
             probs.append(f"line {c.lineno}: `{text(c)[:50]}` puts nodes into the seen set that this run never visited")
+    # ... and inside the loop it grows by what is scheduled: a bulk insertion of nodes taken from the graph (descendants of a
+    # scheduled node, all expanded nodes, ...) marks nodes as seen that were never visited
+    WIDE = ("descendants", "ancestors", "node_ids", "expanded_ids", "stub_ids", "nodes", "successors", "predecessors",
+            "dfs_preorder_nodes", "bfs_tree", "topological_sort")
+    for c in own_walk(f.node):
+        arg = None
+        if isinstance(c, ast.Call) and isinstance(c.func, ast.Attribute) and text(c.func.value) == seen \
+                and c.func.attr in ("update", "__ior__") and c.args and fm.cfgn(c).id in fm.cfg.loop_nodes[top]:
+            arg = c.args[0]
+        elif isinstance(c, ast.AugAssign) and text(c.target) == seen and fm.cfgn(c).id in fm.cfg.loop_nodes[top]:
+            arg = c.value
+        if arg is None:
+            continue
+        av = fm.deref(arg, fm.cfgn(c)) if isinstance(arg, ast.Name) else arg
+        if any(isinstance(y, ast.Call) and (callee_name(y) in WIDE or (dotted(y.func) or "").split(".")[-1] in WIDE) for y in ast.walk(av)) \
+                and not any(isinstance(y, ast.Compare) and any(isinstance(o, ast.NotIn) for o in y.ops) and seen in text(y) for y in ast.walk(av)):
+            probs.append(f"line {c.lineno}: `{text(c)[:60]}` puts nodes into the seen set that this run never visited (whatever an "
+                         f"earlier, interrupted call left below them stays unexpanded although the driver reports completion)")
     ck.ob(rule, fm, loop, not probs, "; ".join(sorted(set(probs))) if probs else
           f"the seen set `{seen}` starts with the start node only", key="seen set of this run")
 
